@@ -208,7 +208,103 @@ class World:
             return [refmodel.rp_of_point(p) for p in r]
         if k == "len":
             return len(db)
+        if k in FAULT_OPS:
+            return self._do_fault(op)
+        if k == "getter":
+            # ("getter", name, args...) - exploration getters / iteration as operations (C15)
+            name = op[1]
+            if name == "iter":
+                return [refmodel.rp_of_point(p) for p in iter(db)]
+            if name == "all":
+                return [refmodel.rp_of_point(p) for p in db.all(sorted=op[2])]
+            if name == "h.iter":
+                return [refmodel.rp_of_point(p) for p in iter(db.measurement(op[2]))]
+            if name == "h.len":
+                return len(db.measurement(op[2]))
+            r = getattr(db, name)(*[list(a) if isinstance(a, tuple) else a for a in op[2:]])
+            return [x for x in r] if isinstance(r, list) else r
+        if k == "select":
+            _, keys, ast, meas = op
+            return db.select(list(keys) if isinstance(keys, tuple) else keys, qast.build(ast), meas)
         raise ValueError(f"unknown op {op!r}")
+
+    def _do_fault(self, op):
+        """Calls that must raise (C11/C14/C15); descriptors documented next to FAULT_OPS."""
+        k = op[0]
+        db, A = self.db, self.alpha
+        if k == "bad_insert":
+            return self._target(op[2]).insert(BAD_VALUES[op[1]]())
+        if k == "bad_insert_multiple":
+            _, pnames, pos, wid, via = op
+            pts = [A.mk_point(n) for n in pnames]
+            pts.insert(pos, BAD_VALUES[wid]())
+            return self._target(via).insert_multiple(pts)
+        if k == "update_raise":
+            _, ast, attr, nth, pre_attr, meas, via = op
+            kw = {}
+            if pre_attr == "time":
+                kw["time"] = A.t[3]
+            elif pre_attr == "measurement":
+                kw["measurement"] = "n"
+            elif pre_attr == "tags":
+                kw["tags"] = {"b": A.q}
+            calls = [0]
+
+            def boom(old):
+                calls[0] += 1
+                if calls[0] >= nth:
+                    raise RuntimeError("user callable failed")
+                return {"time": A.t[0], "measurement": "n", "tags": {"a": A.z}, "fields": {"w": 9}}[attr]
+
+            kw[attr] = boom
+            tgt = self._target(via)
+            if via == "db" and meas is not None:
+                kw["_measurement"] = meas
+            if ast is None:
+                return tgt.update_all(**kw)
+            return tgt.update(qast.build(ast), **kw)
+        if k == "update_badret":
+            _, ast, attr, pre_attr, meas, via = op
+            kw = {}
+            if pre_attr == "time":
+                kw["time"] = A.t[3]
+            elif pre_attr == "tags":
+                kw["tags"] = {"b": A.q}
+            bad = {"time": "2021-01-01", "measurement": 5, "tags": {"a": 1}, "fields": {"v": "s"}}[attr]
+            kw[attr] = lambda old: bad
+            tgt = self._target(via)
+            if via == "db" and meas is not None:
+                kw["_measurement"] = meas
+            if ast is None:
+                return tgt.update_all(**kw)
+            return tgt.update(qast.build(ast), **kw)
+        if k == "bad_args":
+            kind = op[1]
+            from tinyflux import TagQuery
+
+            q = TagQuery().noop()
+            if kind == "update-no-attr":
+                return db.update(q)
+            if kind == "update-non-query":
+                return db.update(3, tags={"a": "b"})
+            if kind == "update-bad-unset":
+                return db.update(q, unset_tags=5)
+            if kind == "update-bad-static-tags":
+                return db.update(q, tags={"a": 1})
+            if kind == "update-bad-static-time":
+                return db.update(q, time="yesterday")
+            if kind == "select-bad-keys":
+                return db.select(("timestamp",), q)
+            if kind == "select-non-iterable":
+                return db.select(3, q)
+            if kind == "search-non-query":
+                return db.search(3)
+            if kind == "update_all-no-attr":
+                return db.update_all()
+            if kind == "h.update-bad-fields":
+                return db.measurement("m").update(q, fields={"a": "a"})
+            raise ValueError(kind)
+        raise ValueError(op)
 
     # ------------------------------------------------------------------ observation
     def stored(self):
@@ -231,8 +327,19 @@ class World:
         return sorted(os.listdir(common.db_dir()))
 
 
-READ_OPS = ("count", "get", "contains", "search", "search_unsorted", "len")
+READ_OPS = ("count", "get", "contains", "search", "search_unsorted", "len", "getter", "select")
 NONMUTATING = READ_OPS + ("reindex", "reopen", "handle")
+
+# Calls that must raise:
+#   ("bad_insert", wid, via)                          insert of a non-Point
+#   ("bad_insert_multiple", (pnames), pos, wid, via)  non-Point at position pos among valid points
+#   ("update_raise", ast|None, attr, nth, pre_attr|None, meas, via)
+#        update (update_all when ast is None) whose ``attr`` callable raises RuntimeError on its
+#        nth invocation, optionally preceded in the same call by a successful static ``pre_attr``
+#   ("update_badret", ast|None, attr, pre_attr|None, meas, via)   callable returns an invalid value
+#   ("bad_args", kind)                                invalid argument combinations
+FAULT_OPS = ("bad_insert", "bad_insert_multiple", "update_raise", "update_badret", "bad_args")
+BAD_VALUES = {"int": lambda: 3, "str": lambda: "p", "None": lambda: None, "dict": lambda: {"time": 1}}
 
 
 # ---------------------------------------------------------------------------- reference twin
@@ -288,7 +395,53 @@ def ref_apply(op, contents, alpha, now=common.CLOCK_START):
         return C, ("ret", refmodel.search(C, op[1], op[2], False))
     if k == "len":
         return C, ("ret", len(C))
+    if k == "bad_insert_multiple":
+        _, pnames, pos, wid, via = op
+        m = None if via == "db" else via[2:]
+        return C + [alpha.ref_point(n, m, now) for n in pnames[:pos]], ("exc",)
+    if k == "update_raise":
+        # raises only if the callable is invoked often enough: nth <= number of selected points
+        _, ast, attr, nth, pre_attr, meas, via = op
+        m = meas if via == "db" else via[2:]
+        pred = (lambda rp: True) if ast is None else refmodel.q_pred(ast)
+        nsel = len(refmodel.select(C, pred, m))
+        if nsel >= nth:
+            return C, ("exc",)
+        return None, None  # completes normally: not a fault here (callers skip it via fault_enabled)
+    if k == "update_badret":
+        _, ast, attr, pre_attr, meas, via = op
+        m = meas if via == "db" else via[2:]
+        pred = (lambda rp: True) if ast is None else refmodel.q_pred(ast)
+        if refmodel.select(C, pred, m):
+            return C, ("exc",)
+        return C, ("ret", 0)
+    if k in ("bad_insert", "bad_args"):
+        return C, ("exc",)
+    if k == "select":
+        return C, ("ret", refmodel.select_keys(C, list(op[1]) if isinstance(op[1], tuple) else op[1], op[2], op[3]))
+    if k == "getter":
+        name = op[1]
+        if name == "iter":
+            return C, ("ret", C)
+        if name == "all":
+            return C, ("ret", sorted(C, key=lambda rp: rp[0]) if op[2] else C)
+        if name == "h.iter":
+            return C, ("ret", [rp for rp in C if rp[1] == op[2]])
+        if name == "h.len":
+            return C, ("ret", len([rp for rp in C if rp[1] == op[2]]))
+        f = getattr(refmodel, name)
+        return C, ("ret", f(C, *[list(a) if isinstance(a, tuple) else a for a in op[2:]]))
     raise ValueError(f"unknown op {op!r}")
+
+
+def fault_enabled(op, contents):
+    """A fault op is only a fault when the faulty callable is actually reached."""
+    if op[0] == "update_raise":
+        _, ast, attr, nth, pre_attr, meas, via = op
+        m = meas if via == "db" else via[2:]
+        pred = (lambda rp: True) if ast is None else refmodel.q_pred(ast)
+        return len(refmodel.select(contents, pred, m)) >= nth
+    return True
 
 
 def op_inserts(op):
